@@ -26,7 +26,6 @@ import (
 const yieldPkg = "github.com/verily-src/fhirpath-go/internal/verifyield"
 
 var atomicish = map[string]bool{"Load": true, "Store": true, "Swap": true, "CompareAndSwap": true, "LoadOrStore": true, "LoadAndDelete": true, "CompareAndDelete": true}
-var lockish = map[string]bool{"Lock": true, "RLock": true, "Unlock": true, "RUnlock": true, "TryLock": true, "Wait": true}
 
 type pkgInfo struct {
 	dir     string
@@ -191,12 +190,14 @@ func isImmutableInit(e ast.Expr) bool {
 	return false
 }
 
-func usesLocks(body *ast.BlockStmt) bool {
+func usesWait(body *ast.BlockStmt) bool {
 	found := false
 	ast.Inspect(body, func(n ast.Node) bool {
 		if c, ok := n.(*ast.CallExpr); ok {
-			if s, ok := c.Fun.(*ast.SelectorExpr); ok && lockish[s.Sel.Name] {
-				found = true
+			if s, ok := c.Fun.(*ast.SelectorExpr); ok && (s.Sel.Name == "Wait" || s.Sel.Name == "TryLock" || s.Sel.Name == "TryRLock") {
+				if len(c.Args) == 0 {
+					found = true
+				}
 			}
 		}
 		return !found
@@ -205,22 +206,100 @@ func usesLocks(body *ast.BlockStmt) bool {
 }
 
 func (p *pkgInfo) instrumentFunc(body *ast.BlockStmt, site *int, note func(int, token.Pos)) {
-	if usesLocks(body) {
-		return // never park a task that may hold a lock
+	if usesWait(body) {
+		return // condition variables and TryLock: leave the function alone
 	}
 	p.instrumentBlock(&body.List, site, note)
 }
 
+// lockCall classifies a statement that is exactly one call X.Lock()/X.RLock()/X.Unlock()/
+// X.RUnlock()/X.Do(f) (plain or deferred).
+func lockCall(st ast.Stmt) (kind string, deferred bool) {
+	var call *ast.CallExpr
+	switch s := st.(type) {
+	case *ast.ExprStmt:
+		call, _ = s.X.(*ast.CallExpr)
+	case *ast.DeferStmt:
+		call, deferred = s.Call, true
+	}
+	if call == nil {
+		return "", false
+	}
+	sel, ok := call.Fun.(*ast.SelectorExpr)
+	if !ok {
+		return "", false
+	}
+	switch sel.Sel.Name {
+	case "Lock", "RLock":
+		if len(call.Args) == 0 {
+			return "lock", deferred
+		}
+	case "Unlock", "RUnlock":
+		if len(call.Args) == 0 {
+			return "unlock", deferred
+		}
+	case "Do":
+		if len(call.Args) == 1 {
+			if _, isLit := call.Args[0].(*ast.FuncLit); isLit {
+				return "once", deferred
+			}
+			if _, isId := call.Args[0].(*ast.Ident); isId {
+				return "once", deferred
+			}
+		}
+	}
+	return "", false
+}
+
+func lockedStmt(delta int, deferred bool) ast.Stmt {
+	arg := strconv.Itoa(delta)
+	call := &ast.CallExpr{
+		Fun:  &ast.SelectorExpr{X: ast.NewIdent("verifyield"), Sel: ast.NewIdent("Locked")},
+		Args: []ast.Expr{&ast.BasicLit{Kind: token.INT, Value: arg}},
+	}
+	if delta < 0 {
+		call.Args = []ast.Expr{&ast.UnaryExpr{Op: token.SUB, X: &ast.BasicLit{Kind: token.INT, Value: strconv.Itoa(-delta)}}}
+	}
+	if deferred {
+		return &ast.DeferStmt{Call: call}
+	}
+	return &ast.ExprStmt{X: call}
+}
+
 func (p *pkgInfo) instrumentBlock(list *[]ast.Stmt, site *int, note func(int, token.Pos)) {
 	var out []ast.Stmt
+	yield := func(pos token.Pos) {
+		*site++
+		note(*site, pos)
+		out = append(out, &ast.ExprStmt{X: &ast.CallExpr{
+			Fun:  &ast.SelectorExpr{X: ast.NewIdent("verifyield"), Sel: ast.NewIdent("Yield")},
+			Args: []ast.Expr{&ast.BasicLit{Kind: token.INT, Value: strconv.Itoa(*site)}},
+		}})
+	}
 	for _, st := range *list {
+		// Lock regions: the simulator keeps a per-task depth and never switches while it is
+		// positive, so a parked task holds no lock; acquiring a lock is itself a yield point.
+		switch kind, deferred := lockCall(st); {
+		case kind == "lock" && !deferred:
+			yield(st.Pos())
+			out = append(out, st, lockedStmt(1, false))
+			continue
+		case kind == "unlock" && !deferred:
+			out = append(out, st, lockedStmt(-1, false))
+			continue
+		case kind == "unlock" && deferred:
+			// defers run last-in first-out: this one runs after the deferred Unlock
+			out = append(out, lockedStmt(-1, true), st)
+			continue
+		case kind == "once" && !deferred:
+			yield(st.Pos())
+			out = append(out, lockedStmt(1, false))
+			p.descend(st, site, note)
+			out = append(out, st, lockedStmt(-1, false))
+			continue
+		}
 		if p.touchesGlobals(st) {
-			*site++
-			note(*site, st.Pos())
-			out = append(out, &ast.ExprStmt{X: &ast.CallExpr{
-				Fun:  &ast.SelectorExpr{X: ast.NewIdent("verifyield"), Sel: ast.NewIdent("Yield")},
-				Args: []ast.Expr{&ast.BasicLit{Kind: token.INT, Value: strconv.Itoa(*site)}},
-			}})
+			yield(st.Pos())
 		}
 		p.descend(st, site, note)
 		out = append(out, st)
